@@ -102,7 +102,7 @@ theorem QF_of_quiescent {s : St} (hq : internalActs s = []) : QF s := by
     have := fixed .drainSend (by simp)
     simp only [step?, hd] at this
     split at this
-    · simp at this
+    · split at this <;> simp at this
     · omega
   · intro it rest hd
     have := fixed .drainTok (by simp)
@@ -311,8 +311,7 @@ theorem C04_internal_steps_terminate :
     split at h
     · rename_i it rest hd
       split at h
-      · simp only [Option.some.injEq] at h; subst h
-        simp [phi, phiDisp, hd]; omega
+      · split at h <;> (simp only [Option.some.injEq] at h; subst h; simp [phi, phiDisp, hd]; omega)
       · simp at h
     · simp at h
   case drainTok =>
